@@ -77,13 +77,15 @@ class RecSpan(Span):
 
 class _Rec(Plugin):
     ORDER = 0
+    NAME = None       # display name (plugins of different modules may well share one)
     ATTRS = None      # resource attributes / decoration attributes
     FAIL_CTOR = False
 
     def __init__(self, config=None):
         if self.FAIL_CTOR:
             raise PluginFault('%s constructor' % type(self).__name__)
-        super().__init__(type(self).__name__, config)
+        super().__init__(self.NAME or type(self).__name__, config)
+        self.class_name = type(self).__name__
         with _lock:
             INSTANCES.setdefault(self.name, []).append(self)
 
@@ -91,7 +93,7 @@ class _Rec(Plugin):
         return self.ORDER
 
     def shutdown(self):
-        _rec(self.name, 'shutdown')
+        _rec(self.class_name, 'shutdown')
 
 
 class _ResMixin(ResourceProvider):
@@ -137,12 +139,12 @@ class _SpanMixin(SpanProcessor):
 _KINDS = {'res': _ResMixin, 'dec': _DecMixin, 'log': _LogMixin, 'met': _MetMixin, 'span': _SpanMixin}
 
 
-def make(name, kinds, order=0, attrs=None, fail_ctor=False, falsy=None):
+def make(name, kinds, order=0, attrs=None, fail_ctor=False, falsy=None, display_name=None):
     """Create (or replace) an importable plugin class vf.plugins.<name>.
 
     falsy: 'len' / 'bool' make the instances falsy (e.g. a registry-like plugin that is empty so far)."""
     bases = tuple([_Rec] + [_KINDS[k] for k in kinds])
-    ns = {'ORDER': order, 'ATTRS': attrs, 'FAIL_CTOR': fail_ctor, '__module__': __name__}
+    ns = {'ORDER': order, 'ATTRS': attrs, 'FAIL_CTOR': fail_ctor, '__module__': __name__, 'NAME': display_name}
     if falsy == 'len':
         ns['__len__'] = lambda self: 0
     elif falsy == 'bool':
